@@ -199,6 +199,12 @@ def gen_program(case_seed, force=None):
             ctx = 'assign'
         calls.append(dict(pi=pi, n=n, names=names, star=star, dstar=dstar, ctx=ctx,
                           nested=ctx in NESTED_CONTEXTS, lead=[rnd.choice(('0', '0', 'None')) for _ in range(max(n, 2))][:n]))
+    # a taint inside the forwarding call's own arguments: Python evaluates the explicit arguments before it
+    # unpacks **kwargs, so `callee(kwargs.pop("k", None), **kwargs)` forwards a dict that was mutated first
+    if ncalls == 1 and 'taints' not in force and ovk and calls[0]['dstar'] == 'own' and calls[0]['n'] >= 1 \
+            and rnd.random() < 0.08:
+        calls[0]['lead'][0] = rnd.choice(('%s.pop("zq9", None)', 'sink(%s)')) % ovk
+        calls[0]['incall_kw'] = True
     # taints
     taints = []
     if 'taints' in force:
@@ -434,6 +440,8 @@ def taint_status(meta, ci, kind):
     """'clean' | 'tainted' | 'either' for the own star of `kind` at call ci."""
     c = meta['calls'][ci]
     status = 'clean'
+    if kind == 'kw' and c.get('incall_kw'):
+        return 'tainted'
     for t in meta['taints']:
         if t['kind'] != kind:
             continue
@@ -838,7 +846,7 @@ def execute_soundness(ctx, meta, g, S, w, rp):
     if meta['route'] == 'inner_partial':
         ctx.count('C05.not_executed_builds_partial_only')
         return
-    if any(t['cls'] != 'harmless' for t in meta['taints']):
+    if any(t['cls'] != 'harmless' for t in meta['taints']) or any(c.get('incall_kw') for c in meta['calls']):
         ctx.count('C05.not_executed_tainted')
         return
     fv = foreign_for_program(meta)
